@@ -61,6 +61,13 @@ var ErrBigNumber = errors.New("numeral out of range")
 type Parser struct {
 	toks []Tok
 	pos  int
+	// dotStar is the power with which the right-hand side of "X.*" is parsed: the
+	// wildcard's own 20 by the precedence rules; 40 (the dot's) in the de-facto
+	// variant shared by the existing implementations (known finding, DESIGN 10.3).
+	dotStar int
+	// listAfterProj admits a multi-select list directly after a projection ("*[a]"),
+	// as the existing implementations do (known finding, not grammatical).
+	listAfterProj bool
 	// StrictExpRef is set by Parse: true iff every expression reference is
 	// directly a function argument (i.e. the sentence is in L(G_strict)).
 	StrictExpRef bool
@@ -78,8 +85,25 @@ func (p *Parser) fail(format string, a ...interface{}) {
 }
 
 // Parse parses a token sequence (without EOF).
-func Parse(toks []Tok) (n *Node, strictExpRef bool, err error) {
-	p := &Parser{toks: append(append([]Tok{}, toks...), Tok{EOF, ""})}
+func Parse(toks []Tok) (n *Node, strictExpRef bool, err error) { return parseWith(toks, 20) }
+
+// ParseDeFacto parses with the irregularity of the existing implementations: the
+// right-hand side of "X.*" is parsed with the dot's binding power, so that
+// "X.*.Y.Z" groups as "(X.*.Y).Z" and "X.*.Y[?c]" filters the collected list.
+func ParseDeFacto(toks []Tok) (n *Node, strictExpRef bool, err error) { return parseWith(toks, 40) }
+
+// ParseListAfterProjection parses with the second known irregularity: a
+// multi-select list may directly continue a projection ("*[a]" = "*.[a]").
+func ParseListAfterProjection(toks []Tok) (n *Node, strictExpRef bool, err error) {
+	return parseVariant(toks, 20, true)
+}
+
+func parseWith(toks []Tok, dotStar int) (n *Node, strictExpRef bool, err error) {
+	return parseVariant(toks, dotStar, false)
+}
+
+func parseVariant(toks []Tok, dotStar int, listAfterProj bool) (n *Node, strictExpRef bool, err error) {
+	p := &Parser{toks: append(append([]Tok{}, toks...), Tok{EOF, ""}), dotStar: dotStar, listAfterProj: listAfterProj}
 	defer func() {
 		if r := recover(); r != nil {
 			if pe, ok := r.(parseError); ok {
@@ -264,7 +288,7 @@ func (p *Parser) led(left *Node) *Node {
 	case DOT:
 		if p.cur().Kind == STAR {
 			p.pos++
-			return &Node{Type: NValueProjection, Children: []*Node{left, p.projRHS(40)}}
+			return &Node{Type: NValueProjection, Children: []*Node{left, p.projRHS(p.dotStar)}}
 		}
 		return &Node{Type: NSub, Children: []*Node{left, p.dotRHS(40)}}
 	case PIPE:
@@ -319,7 +343,7 @@ func (p *Parser) projRHS(power int) *Node {
 		return identity()
 	case k == LBRACKET:
 		// only a bracket specifier may continue a projection (not a multi-select list)
-		if n := p.peek(1).Kind; n == NUM || n == COLON || (n == STAR && p.peek(2).Kind == RBRACKET) {
+		if n := p.peek(1).Kind; p.listAfterProj || n == NUM || n == COLON || (n == STAR && p.peek(2).Kind == RBRACKET) {
 			return p.expr(power)
 		}
 		p.fail("multi-select list can not continue a projection without a dot")
